@@ -12,7 +12,8 @@ CLAIMED = {
         "Every (text, background) of a derived threshold-centred pair lattice x all 12 settings, every accepted spelling of a sub-lattice, "
         "and the three observation points are executed and the success flag compared with an independent WCAG verdict on the returned "
         "value as a CSS parser reads it; thorough adds grey x grey and named x named.",
-        "Decided on the stated lattices, not on all 2^48 pairs. Trusted: mc/oracle/wcag.py, css_color.py.", "DESIGN.md 4/C01"),
+        "Decided on the stated lattices, not on all 2^48 pairs. Also runs the environment-answer exploration of the strategy layer (scripted search "
+        "answers, <= 2 deviations); a scripted failure counts only if every scripted answer equals the real routine's. Trusted: mc/oracle/wcag.py, css_color.py.", "DESIGN.md 4/C01"),
     "C02": (T_SMALL + "; relational oracle on exact WCAG ratios",
         "Same lattice and spelling layer as C01: already-readable pairs must come back unchanged with success, all others must not lose contrast.",
         "Lattice-bounded. Trusted: mc/oracle/wcag.py, css_color.py.", "DESIGN.md 4/C02"),
@@ -23,7 +24,8 @@ CLAIMED = {
     "C04": (T_SMALL + "; harness-side step log of the multi-phase search (attribute replacement, no source hook)",
         "Every mode-0 run of the lattice is measured against the 5.0 cap on the library's and the reference metric; the three documented search "
         "routines are called directly over a tolerance/target/schedule alphabet; every search step inside mode 0/1/2 runs is logged and chained.",
-        "Lattice-bounded; step-chain sub-check skipped (reported) if generate_accessible_color is renamed.", "DESIGN.md 4/C04"),
+        "Lattice-bounded; step-chain sub-check skipped (reported) if generate_accessible_color is renamed. The environment-answer exploration (all "
+        "scripted search answers honouring the documented contract, <= 2 deviations per run) decides the chaining clauses for any contract-honouring routine.", "DESIGN.md 4/C04"),
     "C05": (T_WHOLE,
         "Every one of the 2^24 colours (luminance; ratio against black and white), all grey x grey, cube^2 and named^2 pairs and every float adjacent "
         "to each label threshold is executed on the implementation and compared with an independent WCAG model.",
@@ -39,16 +41,19 @@ CLAIMED = {
         "reference parser working in exact rationals.",
         "Infinite decimal expansions are decided up to the stated alphabet; exponent notation and Level 4 syntax out of scope by the statement.", "DESIGN.md 4/C07"),
     "C08": (T_SMALL + " over generated stylesheets (programs) run through the real command; observation-based oracle",
-        "Every sequence of <= 2 (thorough 3) rule items over a 26-item alphabet x wrappers x --mode x --premium x --default-bg is run through the real "
+        "Every sequence of <= 2 (thorough 3) rule items over a 28-item alphabet x wrappers x --mode x --premium x --default-bg is run through the real "
         "CLI in a fresh cwd; stdout counts, report cards and the written file (read by an independent tokenizer and var() resolver) must agree with "
         "each other, with the Python API and with WCAG.",
-        "Bounded by the item alphabet and sequence length. Two genuine defects are recorded as known findings (shared custom property, invalid "
-        "declaration). Trusted: css_tokens.py, html_tree.py, css_color.py, wcag.py.", "DESIGN.md 4/C08"),
+        "Bounded by the item alphabet and sequence length. Two genuine defects (a custom property shared by rules with different backgrounds; an "
+        "invalid declaration making serialisation fail) are recorded as known findings, each identified by the exact list of failing "
+        "stylesheets+settings (known/*.json); any other failing input fails the check. If the wording of the summary or the markup of the "
+        "report changes, affected runs are reported as skipped. Trusted: css_tokens.py, html_tree.py, css_color.py, wcag.py.", "DESIGN.md 4/C08"),
     "C09": (T_SMALL + " over generated stylesheets; structural token-value comparison of input and output",
         "Rule items interleaved with a 20-item passthrough alphabet in every order (<= 2 passthrough around <= 2/3 rule items) x settings, single file and "
         "directory invocation: input bytes/inode/mtime unchanged, only the documented files created, and the normalised token trees of input and "
         "output equal outside the masked colour values.",
-        "Bounded by the alphabets. One known finding (invalid declaration drops the output). Trusted: css_tokens.py (cross-checked against tinycss2 in selftest).", "DESIGN.md 4/C09"),
+        "Bounded by the alphabets. One known finding (invalid declaration drops the output), identified by the exact failing inputs. Comments written "
+        "inside an adjusted value must survive; adjusted values must be valid CSS colours. Trusted: css_tokens.py (cross-checked against tinycss2 in selftest).", "DESIGN.md 4/C09"),
     "C10": (T_WHOLE + "; dense grid for the inverse",
         "Forward conversion and round trip of all 2^24 colours against the OKLab reference model, the inverse on a full L x C x H grid, and the safe "
         "variants on all valid inputs of the tier and on an alphabet of finite invalid triples.",
